@@ -84,7 +84,7 @@ func (c *Collection) writeWithMeta(key string, body []byte, xattrs []byte, oldCa
 		return err
 	}
 	if e != nil {
-		verifPoint("post.before", e.key, e.cas)
+		verifPoint("post.before", c.GetCollectionID(), e.key, e.cas)
 		c.postNewEvent(e)
 	}
 	return nil
